@@ -396,6 +396,9 @@ func runConcOn(prop, tier string, sc *core.Scratch, ev *core.Evidence, rep *core
 			}
 		}
 	}
+	if prop == "C05" && (tier == "thorough" || os.Getenv("VERIF_APALACHE") != "") {
+		inductive(sc, ev)
+	}
 	ev.Set("rule", "a case is one (mock variant, scenario, method mapping) triple whose schedules are all executed on the real mock (state-pruned depth-first search); distinct by that triple")
 	ev.Set("exhaustive", len(anyNote(ev, "not_exhaustive")) == 0)
 	ev.Assume("preemption only at synchronisation operations, record accesses and operation starts (sub-statement granularity for the append); weaker-memory effects are left to the race detector")
@@ -495,4 +498,43 @@ func pickMappings(mod *Module, mk MockInfo, mps []map[string]string, tier string
 		out = append(out, l[((rot%len(l))+len(l))%len(l)])
 	}
 	return out
+}
+
+// inductive: spec/MockLock.tla - the lock discipline of one method for a fixed
+// set of goroutines and executions of ANY length, by an inductive invariant
+// discharged with Apalache (Init => IndInv; IndInv /\ Next => IndInv';
+// IndInv => RaceFree). Complements the bounded scenarios; a failure to run the
+// tool is recorded, it is not a verdict.
+func inductive(sc *core.Scratch, ev *core.Evidence) {
+	dir := sc.Path("apalache")
+	os.MkdirAll(dir, 0o755)
+	src, err := os.ReadFile(filepath.Join(core.Root(), "spec", "MockLock.tla"))
+	if err != nil {
+		ev.Set("inductive_invariant", "spec/MockLock.tla not readable: "+err.Error())
+		return
+	}
+	os.WriteFile(filepath.Join(dir, "MockLock.tla"), src, 0o644)
+	steps := [][]string{
+		{"--init=Init", "--inv=IndInv", "--length=0"},
+		{"--init=IndInv", "--inv=IndInv", "--length=1"},
+		{"--init=IndInv", "--inv=RaceFree", "--length=0"},
+		{"--init=IndInv", "--inv=NoLostUpdate", "--length=0"},
+	}
+	var results []string
+	ok := 0
+	for _, st := range steps {
+		args := append([]string{"check", "--cinit=ConstInit"}, st...)
+		args = append(args, "MockLock.tla")
+		out, err := core.Run(dir, 10*time.Minute, nil, "apalache-mc", args...)
+		verdict := "tool failed"
+		if strings.Contains(out, "EXITCODE: OK") && err == nil {
+			verdict = "OK"
+			ok++
+		} else if strings.Contains(out, "EXITCODE: ERROR (12)") {
+			verdict = "COUNTEREXAMPLE"
+		}
+		results = append(results, strings.Join(st, " ")+": "+verdict)
+	}
+	ev.Set("inductive_invariant", map[string]any{"module": "spec/MockLock.tla", "goroutines": 4, "obligations": len(steps), "discharged": ok, "steps": results,
+		"checker": "apalache-mc check --cinit=ConstInit --init=... --inv=... --length=0|1"})
 }
